@@ -8,24 +8,32 @@ completely overwritten, or (iii) handed to a nested Encoding<U>::Read for which 
   ELT.r  fixed-size destinations (arrays, pairs, tuples, structures) have every element decoded, once, in order
   TC     tables clear every declared entry before reading
   TR     an entry is re-seated (`*entry = T{}`) before its value is decoded
-  RA     Result::Assign / Optional::clear used for re-seating destroy the previous alternative (see C13 for the types)
+  TS.*   Result / Optional (typestate exploration shared with C13): assignment and clear from every reachable prior state
+  TV.*   Variant of arity 1..4 (shared with C12): Become / assignment from every reachable prior state
 """
+from . import c12, c13
 from .. import facts, report, encrules, tablerules
 
 
 def rules(chk, db):
     encrules.read_rules(chk, db, want=('RST', 'ELT'))
     tablerules.rules(chk, db, {'TC', 'TR'})
+    # the decoders re-seat sum types through Result::operator=, Optional::operator=/clear and Variant::Become: their
+    # "prior state does not matter" contract is the typestate exploration of those classes (shared with C12/C13)
+    c13.typestate(chk, db, prefix='TS.')
+    c12.explore(chk, db, prefix='TV.')
     chk.rule('LBV', 'LogicalBuffer view: begin/end/size/operator[] denote data[0], data[size], the size member, data[i]', minimum=4)
     encrules.logical_buffer_view(chk, db, 'LBV')
 
 
 def run(chk, db):
-    facts.gate(chk, db, ['nop/base/'])
+    facts.gate(chk, db, ['nop/base/', 'nop/types/result.h', 'nop/types/optional.h', 'nop/types/variant.h', 'nop/types/detail/variant.h'])
     rules(chk, db)
     chk.explanation = (
         'For every ReadPayload instance the symbolic successful paths are checked for a reset or complete overwrite of the destination '
         '(kind-specific: clear(), resize+raw read of exactly the resized range, element-by-element coverage with the exact count, '
-        'Become/assignment for sum types, ClearEntries for tables). Value equality with a fresh decode is not decided; "nothing leaked or '
-        'destroyed twice" is the subject of C12/C13.')
+        'Become/assignment for sum types, ClearEntries for tables). The re-seating operations themselves (Result/Optional assignment and '
+        'clear, Variant::Become and assignment) are explored from every reachable prior state by the typestate engine (rules TS.*, TV.*: '
+        'no leak, no double destruction, observable state determined by the assigned value alone). Value equality with a fresh decode is '
+        'not decided.')
     chk.assumptions = ['std container clear()/resize()/operator= have their documented meaning', 'user types assign by value']
